@@ -92,6 +92,21 @@ P = {
   COMMON_NOTE + "Not expressible: kernel pipe semantics, scheduler fairness, that os/exec implements the concurrent discipline (tie only).",
   "Lean 4 proof (deadlock freedom and completeness of the pipe system) + real commands under deadline",
   "DESIGN.md §5 C14"),
+ "C16": (True,
+  "PARTIAL. Lean: two calls as lists of atomic steps over own local state and a shared component; proved: if no step writes shared state, EVERY interleaving gives each call exactly its sequential result. The hypothesis is discharged on every run by a fact regenerated from /repo's source (go/ast): no non-init function of package in_toto assigns to, mutates, takes the address of or calls a method on a package-level variable (`sharedWrites = []`, by decide); a change that introduces shared mutable state breaks this obligation. Search for a failing schedule: a -race instrumented stress binary (2..32 goroutines, mixed independent RecordArtifacts/InTotoRun/sign/load/verify calls on disjoint trees with symlinks, GOMAXPROCS 1..16, yields) compared with sequential execution; race reports, fatal errors, hangs, mismatches are violations.",
+  COMMON_NOTE + "Trusted, not proved: Go memory model (DRF-SC), completeness of the fact extractor, goroutine safety of stdlib and vendored libraries. The race detector only sees schedules that occur.",
+  "Lean 4 proof (commutation without shared writes) + regenerated source fact + race-detector stress search",
+  "DESIGN.md §5 C16"),
+ "C19": (True,
+  "PARTIAL. Lean model of key loading at the level of (key kind, PEM form, scheme request): proved: all forms of one pair load to the same type/scheme/id-algorithms (hence one identifier, as the preimage mentions the public half only), private half present exactly for private forms, certificate only for certificates, default schemes and accepted type/scheme pairs are the listed tables, non-keys are refused; constants tied to the source by regenerated facts. Every run loads freshly generated keys (RSA, ECDSA P-224..521, Ed25519) in every PEM form with decoration, from file and reader, default and explicit scheme, plus corrupted/truncated/encrypted/foreign input, and compares with the model, with crypto/x509 encodings of the public half, with SHA-256 of the MODEL's canonical id preimage, and signs/verifies across two forms of one pair incl. an independent crypto/* verification.",
+  COMMON_NOTE + "Correspondence only: PEM/DER parsing, key generation, SHA-256, SVID conversion (internal/spiffe is exercised by the repository's own tests only).",
+  "Lean 4 proof (identity/type/scheme/halves logic) + differential correspondence on fresh keys in all PEM forms",
+  "DESIGN.md §5 C19"),
+ "C20": (True,
+  "PARTIAL. Lean: the file-naming contract between producers and the verifier's loader (a link written for a step with a key id is found under the id's 8-character prefix, which prefixes the signature's key id), formats tied to the source by regenerated facts; the CLI verdict is the pipeline model's verdict on the files. Every run builds /repo's binary, carries out 1-3 step chains through `run` / `record start|stop` / `sign` (with and without --use-dsse and metadata directory), checks `key id` and `sign --verify`, applies one tampering (product, link, layout, wrong key, dropped/renamed link, extra file) and compares the exit status of `in-toto verify` with in-process library verification AND with the model on the captured files; `match-products` output/exit status vs the model.",
+  COMMON_NOTE + "Correspondence only: cobra flag wiring, process exit codes, certificate/SPIFFE flags (not exercised).",
+  "Lean 4 proof (naming contract) + CLI histories vs library vs model",
+  "DESIGN.md §5 C20"),
 }
 
 ALL = ["C%02d" % i for i in range(1, 21)]
